@@ -373,12 +373,18 @@ def run_apalache(module: str, args: list[str], rundir: pathlib.Path, timeout: in
     out_dir = rundir / f"apa-{module}-{os.getpid()}"
     cmd = ["apalache-mc", "check", f"--out-dir={out_dir}", *args, str(SPEC / (module + ".tla"))]
     t0 = time.time()
+    tmp = rundir / f"apa-tmp-{module}-{os.getpid()}"
+    tmp.mkdir(parents=True, exist_ok=True)
+    e = dict(os.environ)
+    e["JVM_ARGS"] = (e.get("JVM_ARGS", "") + f" -Djava.io.tmpdir={tmp}").strip()      # SANY's scratch directories stay out of /tmp
+    e["TMPDIR"] = str(tmp)
     try:
-        pr = subprocess.run(cmd, cwd=str(SPEC), capture_output=True, text=True, timeout=timeout)
+        pr = subprocess.run(cmd, cwd=str(SPEC), capture_output=True, text=True, timeout=timeout, env=e)
         out = pr.stdout + pr.stderr
         ok = pr.returncode == 0 and "The outcome is: NoError" in out
     except subprocess.TimeoutExpired:
         out, ok = "apalache timeout", False
     finally:
         shutil.rmtree(out_dir, ignore_errors=True)
+        shutil.rmtree(tmp, ignore_errors=True)
     return ok, out, time.time() - t0
